@@ -248,6 +248,9 @@ func (s *Scanner) Next() (lexeme.LexEvent, bool) {
 		case lexeme.InlineAnnotationTextBegin:
 			return s.processingFoundLexeme(lexeme.InlineAnnotationTextEnd), true
 		case lexeme.TypesShortcutBegin:
+			if s.unfinishedLiteral {
+				break
+			}
 			s.found(lexeme.MixedValueEnd)
 			return s.processingFoundLexeme(lexeme.TypesShortcutEnd), true
 		}
@@ -1162,6 +1165,7 @@ func stateNul(s *Scanner, c byte) state {
 
 func stateTypesShortcutBeginOfSchemaName(s *Scanner, c byte) state {
 	if bytes.IsValidUserTypeNameByte(c) {
+		s.unfinishedLiteral = false
 		s.step = stateTypesShortcutSchemaName
 		return scanContinue
 	}
@@ -1189,6 +1193,7 @@ func stateTypesShortcutSchemaName(s *Scanner, c byte) state {
 		s.step = stateTypesShortcutBeforePipe
 
 	case c == '|':
+		s.unfinishedLiteral = true // a type name has to follow
 		s.step = stateTypesShortcutAfterPipe
 
 	default:
@@ -1215,6 +1220,7 @@ func stateTypesShortcutBeforePipe(s *Scanner, c byte) state {
 		s.step = stateTypesShortcutBeforePipe
 
 	case c == '|':
+		s.unfinishedLiteral = true // a type name has to follow
 		s.step = stateTypesShortcutAfterPipe
 
 	default:
@@ -1257,7 +1263,7 @@ func stateAnyCommentStart(s *Scanner, c byte) state {
 		s.annotation = annotationNone
 		s.step = stateInlineComment
 		return scanContinue
-	} else if s.data[s.index] == '#' { // third #
+	} else if s.index < s.dataSize && s.data[s.index] == '#' { // third #
 		s.annotation = annotationNone
 		s.step = stateMultiLineComment
 		return scanContinue
